@@ -24,6 +24,18 @@ CHECKS = {
              text="The fallback function is specified and exhausted over every combination of UDP outcome (reply, TC reply, loss) and TCP outcome (reply, abort, silence); the real upstream built by NewUpstream(\"udp://...\") is driven by concurrent callers against a server owning both protocols of one port whose per-question script fixes both legs; TLC checks on the recorded trace that no truncated UDP message is ever returned, that TCP is attempted only after a TC reply, and that each caller's outcome class equals the specification's Result(udp, tcp).",
              note="Outcome classes are timing-free by construction of the scenario (ample caller deadline).",
              ref="DESIGN.md section 4 C16"),
+ "C03": dict(technique="TLA+ router model (TLC exhaustive incl. liveness 'every request is answered' under fairness, deadline urgency) + TLC trace validation of independent-client / scripted-upstream observations on all 8 listener kinds of the real in-process router",
+             text="TLC exhausts the router model (requests x rule lists x upstream outcomes incl. silence, with the deadline as the only rescue) for the rcode mapping, header echo and at-most-one response, and checks liveness under fairness of the router's own steps; the real router is started in-process with every listener kind (udp, tcp, gnet, tls, http, https, fasthttp, quic) and queried by independent clients while scripted upstreams answer, return error rcodes, send garbage, drop the connection or stay silent for the whole 6 s; TLC validates the recorded trace: exactly one response per query, ID/opcode/QR/RA/RD/question echo, NOTIMP/REFUSED/SERVFAIL mapping computed from the configuration by the specification, deadline + slack.",
+             note="Responses are parsed by miekg/dns in the harness; a decodable upstream reply with a foreign question is outside the fault model.",
+             ref="DESIGN.md section 4 C03"),
+ "C07": dict(technique="TLA+ router/cache model (TLC exhaustive with eviction and clock) + TLC trace validation of cache hook events (key bytes, group label, hit's store) and client/upstream observations over query variants differing in one key component",
+             text="TLC exhausts the cache model for key equality of hits under stores/lookups/evictions; on the real router with an ip_marker file, query families differing in exactly one of name case, name, type, class, client address (across/within/adjacent to ranges, v6, IPv4-mapped, client-address header) are run with background churn and a refresh-window phase; TLC checks that the key bytes equal the specification's KeyBytes, that the group label equals Group(ranges, addr), that every hit names a store with equal key, that stores file answers under their own question, that cached responses equal the first relayed response, and the must-hit clause.",
+             note="Memory cache only (no redis server offline); must-hit only outside the refresh window with > 1 s left.",
+             ref="DESIGN.md section 4 C07"),
+ "C10": dict(technique="TLA+ router model exhaustively checked over all rule lists of length <= 2 over 10 rule shapes (TLC) + the same TLC-generated rule lists started as real routers + TLC trace validation (first-match index from the hook, upstream view) + start-up decision table on in-process and real-binary boots",
+             text="TLC enumerates 111 rule lists (unconditional / set / reversed set x forward u1|u2 / reject / no action, shared sets) and checks first-match, only-selected-upstream and REFUSED fall-through on the model; the harness starts a real router per generated list with one scripted upstream per tag and queries names inside/outside/at the apex of each set (incl. mixed case, cache on/off, repeats); TLC recomputes FirstMatch/Decide from the logged configuration (domain files parsed by the specification) and checks the hook's rule index, that only the decided upstream receives exactly the lower-cased question with RD=1, and rcodes; invalid configurations (unknown upstream/set tag, repeated tag, unknown key at 5 nesting levels) must fail to start in-process and as the real binary.",
+             note="Rule lists of length 3 are explored only in the thorough tier sample; YAML strictness is checked on the real binary.",
+             ref="DESIGN.md section 4 C10"),
 }
 
 PENDING_REASON = "check under construction in this round (see DESIGN.md section 4); not claimed until its machinery is committed and passes on the unchanged tree"
